@@ -50,6 +50,7 @@ type Harness struct {
 	Rewrites      []Rewrite                 `json:"rewrites"`
 	Redirect      map[string]string         `json:"redirect"`
 	Blackhole     []string                  `json:"blackhole"`
+	SkipFuncs     []string                  `json:"skip_funcs"`
 	Tiers         []string                  `json:"tiers"` // tiers in which the harness runs (default both)
 	Claim         string                    `json:"claim"`
 	Assumptions   []string                  `json:"assumptions"`
@@ -440,9 +441,13 @@ func runHarness(spec *Spec, h *Harness, tier string, workers int, verbose bool, 
 	for k, v := range h.Redirect {
 		redirect[k] = v
 	}
+	skip := map[string]bool{}
+	for _, f := range h.SkipFuncs {
+		skip[f] = true
+	}
 	mkcfg := func() interp.Config {
 		return interp.Config{RTPath: repoMod + "/verifrt", Blackhole: append(append([]string(nil), defaultBlackhole...), h.Blackhole...),
-			Redirect: redirect, MaxSteps: h.MaxSteps, PanicOK: h.PanicOK, Verbose: verbose, Params: hr.params}
+			SkipFuncs: skip, Redirect: redirect, MaxSteps: h.MaxSteps, PanicOK: h.PanicOK, Verbose: verbose, Params: hr.params}
 	}
 	runJob := func(prefix []int, discover int) (*jobResult, error) {
 		sol, err := smt.New(hr.solver, timeout)
